@@ -387,7 +387,10 @@ class MahalanobisMixin(BaseMetricLearner, MetricTransformer,
     pairs = check_input(pairs, type_of_inputs='tuples',
                         preprocessor=self.preprocessor_,
                         estimator=self, tuple_size=2)
-    pairwise_diffs = self.transform(pairs[:, 1, :] - pairs[:, 0, :])
+    # (the differences are formed in floating point: with an unsigned integer
+    # dtype they would wrap around)
+    pairwise_diffs = self.transform(pairs[:, 1, :].astype(float) -
+                                    pairs[:, 0, :])
     # (for MahalanobisMixin, the embedding is linear so we can just embed the
     # difference)
     return np.sqrt(np.sum(pairwise_diffs**2, axis=-1))
@@ -440,8 +443,8 @@ class MahalanobisMixin(BaseMetricLearner, MetricTransformer,
       distance : float
         The distance between u and v according to the new metric.
       """
-      u = validate_vector(u)
-      v = validate_vector(v)
+      u = validate_vector(u, dtype=float)
+      v = validate_vector(v, dtype=float)
       transformed_diff = (u - v).dot(components_T)
       dist = np.dot(transformed_diff, transformed_diff.T)
       if not squared:
